@@ -16,7 +16,7 @@ pub fn property() -> Property {
     Property {
         id: "C18",
         level: "exploration",
-        rule: "Bounded-exhaustive matrix: every charset exported by attohttpc::charsets (40) x its labels (canonical name + WHATWG aliases) in lower/upper/mixed case x Content-Type form {`t/s; charset=l`, `t/s;charset=l`, absent, unknown label, no parameter} x default-charset setting {unset, session, request, session overridden by request, session reset to None by the request} x API {text, text_with(other), text_utf8, text_reader with caller buffers 1,2,3,4,5,16,8192} x body kind {valid text in that encoding, random bytes, truncated multi-byte tail, lone surrogates / ISO-2022-JP escape garbage}; plus EVERY single cut offset and the bytewise script of 14 fixed multi-byte bodies (exhaustive; splits every multi-byte sequence at every inner offset) and seeded random cases incl. BOM-prefixed bodies. Oracle: one-shot encoding_rs decode_without_bom_handling with the charset the statement selects; for BOM-prefixed bodies only 'streaming/segmented == unsegmented through the same API'; no API may return Err. Non-trivial: body non-empty; distinct = hash(head, body, segmentation, API, defaults).",
+        rule: "Bounded-exhaustive matrix: every charset exported by attohttpc::charsets (40) x its labels (canonical name + WHATWG aliases; plus the 6 labels of the WHATWG `replacement` decoder) in lower/upper/mixed case x Content-Type form {`t/s; charset=l`, `t/s;charset=l`, absent, unknown label, no parameter} x default-charset setting {unset, session, request, session overridden by request, session reset to None by the request} x API {text, text_with(other), text_utf8, text_reader with caller buffers 1,2,3,4,5,16,8192} x body kind {valid text in that encoding, random bytes, truncated multi-byte tail, lone surrogates / ISO-2022-JP escape garbage}; plus EVERY single cut offset and the bytewise script of 14 fixed multi-byte bodies (exhaustive; splits every multi-byte sequence at every inner offset) and seeded random cases incl. BOM-prefixed bodies. Oracle: one-shot encoding_rs decode_without_bom_handling with the charset the statement selects; for BOM-prefixed bodies only 'streaming/segmented == unsegmented through the same API'; no API may return Err. Non-trivial: body non-empty; distinct = hash(head, body, segmentation, API, defaults).",
         assumptions: &["quoted or second-position charset parameters are not generated", "encoding_rs is the decoding oracle (the statement defines decoding as lossy WHATWG decoding)"],
         min_nontrivial: |t| t.pick(5_000, 100_000),
         gens,
@@ -374,6 +374,11 @@ fn all_labels() -> Vec<(Charset, String)> {
         for l in labels_for(cs) {
             v.push((*cs, l));
         }
+    }
+    // labels the WHATWG table maps to the `replacement` decoder are known labels too: the whole
+    // body decodes to a single U+FFFD (they must not fall through to a default charset)
+    for l in ["replacement", "csiso2022kr", "hz-gb-2312", "iso-2022-cn", "iso-2022-cn-ext", "iso-2022-kr"] {
+        v.push((encoding_rs::REPLACEMENT, l.to_owned()));
     }
     v
 }
